@@ -370,6 +370,21 @@ def _setting_task(name):
         elif snap[name] != want:
             note("effective-value:file+wsgi_app", "the configuration file names the application (wsgi_app) and sets %s = %r; effective value %r" % (
                 name, values[0], snap[name]), {})
+    # a source may mention a setting with the value None (where the setting accepts it): that is a mention like any other
+    try:
+        none_norm = normalise(name, None, callables) if name not in callables else "<n/a>"
+        v0_norm = normalise(name, values[0], callables)
+    except Exception:
+        none_norm = v0_norm = "<n/a>"
+    if "file" in srcs and "fw" in srcs and none_norm != "<n/a>" and none_norm != v0_norm and name != "paste":
+        evals += 1
+        nontriv += 1
+        status, snap = load(file="%s = None\n" % name, fw={name: values[0]})
+        if status != "ok":
+            note("valid-value-rejected:file", "the configuration file says %s = None (a value the setting accepts): load failed: %s" % (name, snap), {})
+        elif snap[name] != none_norm:
+            note("precedence:fw-over-file" if snap[name] == v0_norm else "effective-value:file",
+                 "the configuration file says %s = None, the framework default %r: effective %r, the file's None means %r" % (name, values[0], snap[name], none_norm), {})
     # reload histories: S1 -> S2 must equal a fresh load of S2
     hist = []
     f1 = build_sources(s, {"file": values[0]}, callables)
@@ -464,6 +479,71 @@ def _config_task(_):
     return {"evals": evals, "nontriv": evals, "viols": viols, "key": "~config", "skipped": False}
 
 
+def _hooks_task(_):
+    """Normalisation of hook settings may wrap the user's function (post_request accepts 2, 3 or 4 parameters): whatever
+    the wrapper, the user's function must be called with the documented arguments in the documented order."""
+    st = _setup()
+    d = st["dir"]
+    import inspect
+    from gunicorn.config import Config
+    from gunicorn.app.wsgiapp import WSGIApplication
+    viols = []
+    evals = 0
+    hooks = {n: s_ for n, s_ in Config().settings.items() if getattr(s_.validator, "__name__", "") in ("_validate_callable", "validate_post_request")}
+    for name, s_ in sorted(hooks.items()):
+        full = len(inspect.signature(s_.default).parameters)
+        arities = (2, 3, 4) if name == "post_request" else (full,)
+        for ar in arities:
+            for src in ("file", "fw"):
+                evals += 1
+                args = ", ".join("a%d" % i for i in range(ar))
+                text = "SEEN = []\ndef %s(%s):\n    SEEN.append((%s%s))\n" % (name, args, args, "," if ar == 1 else "")
+                saved_argv = sys.argv
+                try:
+                    os.chdir(d)
+                    conf = os.path.join(d, "gunicorn.conf.py")
+                    if os.path.exists(conf):
+                        os.unlink(conf)
+                    ns = {}
+                    if src == "file":
+                        open(conf, "w").write(text)
+                    else:
+                        exec(text, ns)
+                    sys.argv = ["gunicorn", "app:app"]
+
+                    class FwApp(WSGIApplication):
+                        def init(self_, parser, opts, a):
+                            super().init(parser, opts, a)
+                            return {name: ns[name]} if src == "fw" else None
+                    app = FwApp("%(prog)s [OPTIONS] [APP_MODULE]", prog="gunicorn")
+                    eff = getattr(app.cfg, name)
+                    sent = tuple("arg%d" % i for i in range(max(full, ar)))
+                    eff(*sent)
+                    if src == "file":
+                        seen = eff.__globals__.get("SEEN") if hasattr(eff, "__globals__") and "SEEN" in eff.__globals__ else None
+                        if seen is None:
+                            # a wrapper: find the user's function in its closure
+                            for cell in (getattr(eff, "__closure__", None) or ()):
+                                f = cell.cell_contents
+                                if callable(f) and "SEEN" in getattr(f, "__globals__", {}):
+                                    seen = f.__globals__["SEEN"]
+                    else:
+                        seen = ns["SEEN"]
+                    want = [sent[:ar]]
+                    if seen != want:
+                        viols.append(violation("hook-arguments:%s" % name, "%s given by %s with %d parameters, called as %s(%s): the user's function received %r, expected %r" % (
+                            name, src, ar, name, ", ".join(sent), seen, want), {"hooks": True}))
+                except SystemExit as e:
+                    viols.append(violation("hook-rejected:%s" % name, "%s with %d parameters (%s): startup failed (%r)" % (name, ar, src, e.code), {"hooks": True}))
+                except Exception as e:
+                    viols.append(violation("hook-arguments:%s" % name, "%s with %d parameters (%s): %s: %s" % (name, ar, src, type(e).__name__, e), {"hooks": True}))
+                finally:
+                    sys.argv = saved_argv
+                    if os.path.exists(os.path.join(d, "gunicorn.conf.py")):
+                        os.unlink(os.path.join(d, "gunicorn.conf.py"))
+    return {"evals": evals, "nontriv": evals, "viols": viols[:3], "key": "~hooks", "skipped": False}
+
+
 def _pair_task(t):
     """Two settings mentioned by two different sources: each gets its own value, nothing else moves."""
     _tag, a_name, b_names = t
@@ -528,6 +608,8 @@ def _task(t):
         r = _pair_task(t)
     elif t == "~config":
         r = _config_task(t)
+    elif t == "~hooks":
+        r = _hooks_task(t)
     else:
         r = _setting_task(t)
     r["scratch"] = _STATE.get("dir")        # pool workers do not run atexit handlers: the parent removes the directories
@@ -544,7 +626,7 @@ def setting_names():
 
 def run(ctx):
     names = setting_names()
-    tasks = names + ["~config"]
+    tasks = names + ["~config", "~hooks"]
     # pairs of settings mentioned by two different sources (thorough: all ordered pairs; quick: each setting with 6 partners)
     for i, a in enumerate(names):
         partners = names if ctx.thorough else [names[(i + j * 13 + 1) % len(names)] for j in range(6)]
@@ -577,6 +659,9 @@ def run(ctx):
 def replay(case):
     if "pair" in case:
         r = _pair_task(("~pair", case["pair"][0], [case["pair"][1]]))
+        return r["viols"][0] if r["viols"] else None
+    if case.get("hooks"):
+        r = _task("~hooks")
         return r["viols"][0] if r["viols"] else None
     r = _task(case.get("setting", "~config"))
     return r["viols"][0] if r["viols"] else None
